@@ -9,7 +9,9 @@ PROPERTY = dict(
                 "symbolic, from an arbitrary valid state (unit quaternion, free bias; default covariances). Allowed outcomes: "
                 "ValueError, or a defined unit quaternion together with a defined post-state; then 'any later sample' is C03's "
                 "step from a valid state. For the filters that only offer a batch constructor (FKF, Complementary) the dropout "
-                "is a zero row in an N = 3 history with symbolic neighbours.",
+                "is a zero row in an N = 3 history with symbolic neighbours. A magnetometer-only dropout must be refused or leave "
+                "the heading to the gyroscope; the filter's numeric settings must be what they were before the dropout; "
+                "updateMARG(mag = 0, dt) must be the IMU step for the same dt.",
     bounds="one faulty step from an arbitrary valid state; N = 3 histories with the dropout in the middle row",
     outside=["the recovery clause ('returns to within its normal tolerance afterwards') is a convergence statement (see C05) and "
              "is not claimed", "rounding"],
